@@ -92,20 +92,19 @@ func verifAssume(bool) {}
 //@ ensures #daily: tf == 86400000000000 ==> abs(result) == civilYearStart(year, utils.InstanceConfig.Timezone) + index*86400000000000
 
 //@ func TimeToOffset
-//@ props C30
-//@ requires #tf: tf > 0
-//@ ensures #compose: result == wrap64(wrap64((TimeToIndexSpec(abs(t), tf, utils.InstanceConfig.Timezone)-1)*recordSize) + Headersize)
-
-//@ ghost func TimeToIndexSpec(a int, tf int, z int) int = ite(tf == 86400000000000, civilYearDay(a, z) - 1, 1 + (a - civilYearStart(civilYear(a, z), z)) / tf)
+//@ inline
 
 //@ func nanosecondsInYear
 //@ props C30
 //@ requires #year: 0 <= year && year <= 32767
 //@ ensures #len: result == civilYearStart(year+1, time.Local) - civilYearStart(year, time.Local)
 
+// The sub-day entries of utils.Timeframes (1Sec ... 4H), in nanoseconds.
+//@ ghost func subdayTF(tf int) bool = tf == 1000000000 || tf == 10000000000 || tf == 30000000000 || tf == 60000000000 || tf == 300000000000 || tf == 900000000000 || tf == 1800000000000 || tf == 3600000000000 || tf == 7200000000000 || tf == 14400000000000
+
 //@ func FileSize
 //@ props C30
-//@ requires #tf: tf > 0
+//@ requires #tf: tf >= 1000000000
 //@ requires #rs: 0 <= recordSize && recordSize < 2147483648
 //@ requires #year: 0 <= year && year <= 32767
 //@ ensures #size: result == Headersize + ((civilYearStart(year+1, time.Local) - civilYearStart(year, time.Local)) / tf) * recordSize
@@ -230,7 +229,8 @@ func lemmaSlotInDataArea(t time.Time, tf time.Duration, recordSize int32) {
 
 //@ lemma lemmaSlotInDataArea
 //@ props C30 C08
-//@ requires tf > 0 && tf < 86400000000000 && 86400000000000 % tf == 0 && recordSize >= 0
+//@ requires subdayTF(tf) && recordSize >= 0
+//@ requires 1 <= civilYear(abs(t), utils.InstanceConfig.Timezone) && civilYear(abs(t), utils.InstanceConfig.Timezone) <= 32767
 //@ requires civilYearStart(civilYear(abs(t), utils.InstanceConfig.Timezone)+1, utils.InstanceConfig.Timezone) - civilYearStart(civilYear(abs(t), utils.InstanceConfig.Timezone), utils.InstanceConfig.Timezone) == civilYearStart(civilYear(abs(t), utils.InstanceConfig.Timezone)+1, time.Local) - civilYearStart(civilYear(abs(t), utils.InstanceConfig.Timezone), time.Local)
 
 // Daily timeframe: the slot of 1 January is index 0, i.e. the reader's hole marker and an offset inside the header.
